@@ -1,4 +1,5 @@
 import PeptVerif.Model.Search
+import PeptVerif.Lemmas.AnnotCanon
 import Mathlib.Algebra.Order.Ring.Unbundled.Rat
 import Mathlib.Algebra.Order.Field.Rat
 import Mathlib.Algebra.Order.Field.Basic
@@ -481,5 +482,216 @@ theorem sliceAt_idem (t : Annotation) (i L : Nat) (hL : 0 < L) (h : i + L ≤ t.
     simp_all [plain]
 
 end
+/-! ### order-insensitive containment -/
+section
+open Static (counterAdd)
+
+theorem annEq_bequiv : BEquiv annEq where
+  refl a := (annEq_iff a a).2 (annEquiv_refl a)
+  symm a b h := (annEq_iff b a).2 (annEquiv_symm ((annEq_iff a b).1 h))
+  trans a b c h g := (annEq_iff a c).2 (annEquiv_trans ((annEq_iff a b).1 h) ((annEq_iff b c).1 g))
+
+theorem piecesContained_iff (qs ts : List Annotation) :
+    piecesContained qs ts = true ↔ ∀ p : Annotation, qs.countP (annEq p) ≤ ts.countP (annEq p) := by
+  unfold piecesContained
+  rw [List.all_eq_true]
+  constructor
+  · intro h p
+    by_cases hp : 0 < qs.countP (annEq p)
+    · obtain ⟨p', hp', hpp'⟩ := exists_mem_of_countP_pos _ _ hp
+      have := h p' hp'
+      simp only [decide_eq_true_eq] at this
+      rw [annEq_bequiv.countP_congr p p' hpp' qs, annEq_bequiv.countP_congr p p' hpp' ts]
+      exact this
+    · omega
+  · intro h p _
+    simpa using h p
+
+open Classical in
+theorem countP_annEq_eq_count (p : Annotation) (l : List Annotation) :
+    l.countP (annEq p) = ((l.map eqCanon : List EqCanon) : Multiset EqCanon).count (eqCanon p) := by
+  rw [Multiset.coe_count, List.count, List.countP_map]
+  apply List.countP_congr
+  intro a _
+  simp only [Function.comp, beq_iff_eq]
+  rw [annEq_iff_canon]
+  exact eq_comm
+
+open Classical in
+theorem piecesContained_iff_multiset (qs ts : List Annotation) :
+    piecesContained qs ts = true ↔
+      ((qs.map eqCanon : List EqCanon) : Multiset EqCanon) ≤ ((ts.map eqCanon : List EqCanon) : Multiset EqCanon) := by
+  rw [piecesContained_iff, Multiset.le_iff_count]
+  constructor
+  · intro h c
+    by_cases hc : c ∈ ((qs.map eqCanon : List EqCanon) : Multiset EqCanon)
+    · simp only [Multiset.mem_coe, List.mem_map] at hc
+      obtain ⟨p, _, rfl⟩ := hc
+      rw [← countP_annEq_eq_count, ← countP_annEq_eq_count]
+      exact h p
+    · rw [Multiset.count_eq_zero_of_notMem hc]; exact Nat.zero_le _
+  · intro h p
+    rw [countP_annEq_eq_count, countP_annEq_eq_count]
+    exact h (eqCanon p)
+
+/-! counters -/
+abbrev Ctr := List (List Char × Nat)
+
+theorem lookup_counterAdd (d : Ctr) (k k' : List Char) :
+    ((counterAdd d k).lookup k').getD 0 = (d.lookup k').getD 0 + (if k = k' then 1 else 0) := by
+  induction d with
+  | nil =>
+    simp only [counterAdd, List.lookup]
+    by_cases h : k = k'
+    · subst h; simp
+    · have : (k' == k) = false := by simpa using (Ne.symm h)
+      simp [this, h]
+  | cons e d ih =>
+    obtain ⟨k0, n⟩ := e
+    simp only [counterAdd]
+    by_cases h0 : k0 = k
+    · subst h0
+      simp only [if_true]
+      by_cases h : k0 = k'
+      · subst h; simp [List.lookup]
+      · have : (k' == k0) = false := by simpa using (Ne.symm h)
+        simp [List.lookup, this, h]
+    · simp only [h0, if_false]
+      by_cases h : k' = k0
+      · subst h
+        have : ¬ k = k' := fun e => h0 e.symm
+        simp [List.lookup, this]
+      · have : (k' == k0) = false := by simpa using h
+        simp only [List.lookup, this]
+        exact ih
+
+theorem lookup_counter (ks : List (List Char)) (d : Ctr) (k' : List Char) :
+    ((ks.foldl counterAdd d).lookup k').getD 0 = (d.lookup k').getD 0 + ks.count k' := by
+  induction ks generalizing d with
+  | nil => simp
+  | cons k ks ih =>
+    rw [List.foldl_cons, ih, lookup_counterAdd, List.count_cons]
+    by_cases h : k = k'
+    · subst h; simp; omega
+    · have : (k == k') = false := by simpa using h
+      simp [h, this]
+
+theorem keys_counterAdd (d : Ctr) (k : List Char) :
+    (counterAdd d k).map (·.1) = if k ∈ d.map (·.1) then d.map (·.1) else d.map (·.1) ++ [k] := by
+  induction d with
+  | nil => simp [counterAdd]
+  | cons e d ih =>
+    obtain ⟨k0, n⟩ := e
+    simp only [counterAdd]
+    by_cases h0 : k0 = k
+    · subst h0; simp
+    · have : ¬ k = k0 := fun e => h0 e.symm
+      simp only [h0, if_false, List.map_cons, ih, List.mem_cons, this, false_or]
+      split <;> simp
+
+theorem counter_keys (ks : List (List Char)) (d : Ctr) (hd : (d.map (·.1)).Nodup) :
+    ((ks.foldl counterAdd d).map (·.1)).Nodup ∧
+      ∀ k, k ∈ (ks.foldl counterAdd d).map (·.1) ↔ k ∈ d.map (·.1) ∨ k ∈ ks := by
+  induction ks generalizing d with
+  | nil => simp [hd]
+  | cons k ks ih =>
+    have hk := keys_counterAdd d k
+    have hd' : ((counterAdd d k).map (·.1)).Nodup := by
+      rw [hk]; split
+      · exact hd
+      · rename_i h
+        rw [List.nodup_append]
+        refine ⟨hd, by simp, ?_⟩
+        intro a ha b hb
+        simp only [List.mem_cons, List.mem_nil_iff, or_false] at hb
+        subst hb; intro e; subst e; exact h ha
+    obtain ⟨h1, h2⟩ := ih (counterAdd d k) hd'
+    refine ⟨h1, fun k' => ?_⟩
+    rw [List.foldl_cons, h2 k', hk]
+    split
+    · rename_i h
+      simp only [List.mem_cons]
+      constructor
+      · rintro (h | h); exact Or.inl h; exact Or.inr (Or.inr h)
+      · rintro (h' | rfl | h'); exact Or.inl h'; exact Or.inl h; exact Or.inr h'
+    · simp only [List.mem_append, List.mem_cons, List.mem_nil_iff, or_false]
+      tauto
+
+theorem lookup_of_mem_nodup (d : Ctr) (hd : (d.map (·.1)).Nodup) (k : List Char) (n : Nat) (h : (k, n) ∈ d) :
+    d.lookup k = some n := by
+  induction d with
+  | nil => simp at h
+  | cons e d ih =>
+    obtain ⟨k0, n0⟩ := e
+    rw [List.map_cons, List.nodup_cons] at hd
+    rcases List.mem_cons.mp h with h1 | h1
+    · cases h1; simp [List.lookup]
+    · have : k ≠ k0 := by
+        intro e; subst e
+        exact hd.1 (List.mem_map.mpr ⟨(k, n), h1, rfl⟩)
+      have hb : (k == k0) = false := by simpa using this
+      simp only [List.lookup, hb]
+      exact ih hd.2 h1
+
+/-- `List.count` does not depend on which lawful `BEq` instance is used -/
+theorem count_inst_irrel {α : Type} (i1 i2 : BEq α) [@LawfulBEq α i1] [@LawfulBEq α i2] (a : α) (l : List α) :
+    @List.count α i1 a l = @List.count α i2 a l := by
+  induction l with
+  | nil => rfl
+  | cons b l ih =>
+    rw [@List.count_cons α i1, @List.count_cons α i2, ih]
+    by_cases h : b = a
+    · subst h; simp
+    · have h1 : (@BEq.beq α i1 b a) = false := by
+        cases hb : @BEq.beq α i1 b a with
+        | false => rfl
+        | true => exact absurd (@eq_of_beq α i1 _ b a hb) h
+      have h2 : (@BEq.beq α i2 b a) = false := by
+        cases hb : @BEq.beq α i2 b a with
+        | false => rfl
+        | true => exact absurd (@eq_of_beq α i2 _ b a hb) h
+      rw [h1, h2]
+
+/-- the Counter test of the old code on two key lists is the abstract `unorderedContained` -/
+theorem counter_test_eq (ks kt : List (List Char)) :
+    ((ks.foldl counterAdd []).all fun kn => decide (kn.2 ≤ (((kt.foldl counterAdd []).lookup kn.1).getD 0)))
+      = unorderedContained ks kt := by
+  rw [Bool.eq_iff_iff, List.all_eq_true]
+  unfold unorderedContained
+  rw [List.all_eq_true]
+  obtain ⟨hnd, hkeys⟩ := counter_keys ks [] (by simp)
+  constructor
+  · intro h k hk
+    have hk' : k ∈ (ks.foldl counterAdd []).map (·.1) := (hkeys k).mpr (Or.inr hk)
+    obtain ⟨⟨k0, n⟩, hmem, rfl⟩ := List.mem_map.mp hk'
+    have := h (k0, n) hmem
+    have hl := lookup_of_mem_nodup _ hnd k0 n hmem
+    have hc := lookup_counter ks [] k0
+    have hc' := lookup_counter kt [] k0
+    simp only [hl, Option.getD_some, List.lookup, Option.getD_none, Nat.zero_add] at hc hc'
+    simp only [decide_eq_true_eq] at this ⊢
+    rw [count_inst_irrel instBEqOfDecidableEq List.instBEq k0 ks, count_inst_irrel instBEqOfDecidableEq List.instBEq k0 kt]
+    omega
+  · intro h kn hmem
+    obtain ⟨k0, n⟩ := kn
+    have hk : k0 ∈ ks := by
+      have := (hkeys k0).mp (List.mem_map.mpr ⟨(k0, n), hmem, rfl⟩)
+      simpa using this
+    have := h k0 hk
+    rw [count_inst_irrel instBEqOfDecidableEq List.instBEq k0 ks, count_inst_irrel instBEqOfDecidableEq List.instBEq k0 kt] at this
+    have hl := lookup_of_mem_nodup _ hnd k0 n hmem
+    have hc := lookup_counter ks [] k0
+    have hc' := lookup_counter kt [] k0
+    simp only [hl, Option.getD_some, List.lookup, Option.getD_none, Nat.zero_add] at hc hc'
+    simp only [decide_eq_true_eq] at this ⊢
+    omega
+
+end
+theorem map_eqCanon_of_rel2 (a b : List Annotation) (h : Rel2 (fun x y => annEq x y = true) a b) :
+    a.map eqCanon = b.map eqCanon := by
+  induction h with
+  | nil => rfl
+  | cons hxy _ ih => rw [List.map_cons, List.map_cons, ih, (annEq_iff_canon _ _).mp hxy]
+
 end Search
 end Pept
